@@ -397,6 +397,11 @@ func normBody(b []byte) (string, map[string]any) {
 	return canonJSON(m), m
 }
 
+// closeCluster shuts the case's cluster down. It is called after the result has
+// been written and is bounded: an rqlite node whose write queue is retrying a
+// refused batch can block in Service.Close for ever.
+var closeCluster = func() {}
+
 func worker(args []string) {
 	b, err := os.ReadFile(args[0])
 	if err != nil {
@@ -411,6 +416,14 @@ func worker(args []string) {
 	out := runCase(cd, args[1], seed, args[4])
 	ob, _ := json.Marshal(out)
 	os.WriteFile(args[2], ob, 0644)
+	done := make(chan struct{})
+	go func() { closeCluster(); close(done) }()
+	select {
+	case <-done:
+	case <-time.After(20 * time.Second):
+		fmt.Fprintln(os.Stderr, "cluster shutdown did not finish within 20 s; exiting")
+	}
+	os.Exit(0)
 }
 
 type job struct {
@@ -434,7 +447,7 @@ func runCase(cd caseDef, dir string, seed int64, tier string) (out caseOut) {
 	}
 	rec := &recorder{}
 	cl := hcluster.New(filepath.Join(dir, "cluster"))
-	defer cl.Close()
+	closeCluster = cl.Close // the caller closes it after the result is written
 	cl.HTTP.Timeout = 90 * time.Second
 	for _, id := range []string{"n1", "n2", "n3"} {
 		o := hcluster.Options{ID: id, HeartbeatTimeout: 1500 * time.Millisecond, ElectionTimeout: 1500 * time.Millisecond, LeaderLease: time.Second,
